@@ -105,6 +105,21 @@ fn main() {
         }
         return;
     }
+    if args[0] == "sqlof" {
+        // mc sqlof <file> : one program per line (" | " for newlines) → "<program>\t<sqlite SQL or error>" (triage aid)
+        let txt = std::fs::read_to_string(&args[1]).expect("read");
+        for l in txt.lines() {
+            let src = l.replace(" | ", "\n");
+            let o = prqlc::Options::default().no_format().no_signature().with_target(prqlc::Target::Sql(Some(prqlc::sql::Dialect::SQLite)));
+            let r = match iso::guard(|| prqlc::compile(&src, &o)) {
+                Ok(Ok(s)) => s,
+                Ok(Err(e)) => format!("ERR {}", e.inner.iter().map(|m| m.reason.clone()).collect::<Vec<_>>().join("; ")),
+                Err(p) => format!("PANIC {} {}", p.site, p.msg),
+            };
+            println!("{l}\t{}", r.replace('\n', " "));
+        }
+        return;
+    }
     if args[0] == "show" {
         // mc show <file.prql> : RQ JSON and SQL for the executable targets (debug aid)
         let txt = std::fs::read_to_string(&args[1]).expect("read");
